@@ -168,6 +168,116 @@ pub fn rich_gen() -> ValueGen {
 	}
 }
 
+/// a spine of `depth` nested containers (arrays and one-entry objects) ending in a small value, printed with every
+/// container expanded: line k is indented by k indent units
+fn deep_case(rng: &mut Rng, g: &ValueGen) -> (Value, Options) {
+	// (indent unit, depth): the deepest line is indented by 31..66 columns
+	let (unit, depth) = [
+		(Indent::Spaces(1), 32usize), (Indent::Spaces(1), 33), (Indent::Spaces(1), 65), (Indent::Spaces(2), 16), (Indent::Spaces(2), 17), (Indent::Spaces(2), 33),
+		(Indent::Spaces(3), 11), (Indent::Spaces(4), 8), (Indent::Spaces(4), 9), (Indent::Spaces(4), 16), (Indent::Spaces(8), 4), (Indent::Spaces(8), 8),
+		(Indent::Spaces(16), 2), (Indent::Spaces(16), 4), (Indent::Spaces(32), 2), (Indent::Tabs(1), 32), (Indent::Tabs(1), 33), (Indent::Tabs(2), 16), (Indent::Tabs(2), 17),
+	][rng.below(19)];
+	let mut v = g.value(rng, 1);
+	for d in 0..depth {
+		v = if rng.chance(1, 3) {
+			let k = g.keys[rng.below(g.keys.len())].clone();
+			Value::Object(vec![json_syntax::object::Entry::new(k.as_str().into(), v)].into_iter().collect())
+		} else if d % 5 == 4 {
+			Value::Array(vec![Value::Null, v])
+		} else {
+			Value::Array(vec![v])
+		};
+	}
+	let mut o = if rng.chance(1, 2) { Options::pretty() } else { random_options(rng) };
+	o.indent = unit;
+	if rng.chance(3, 4) {
+		o.array_limit = Some(if rng.chance(1, 2) { Limit::Always } else { Limit::Width(rng.below(12)) });
+		o.object_limit = Some(if rng.chance(1, 2) { Limit::Always } else { Limit::Item(0) });
+	}
+	(v, o)
+}
+
+fn big_spacing_case(rng: &mut Rng, g: &ValueGen) -> (Value, Options) {
+	let d = 1 + rng.below(2);
+	let v = g.value(rng, d);
+	let mut o = random_options(rng);
+	let big = |rng: &mut Rng| [0usize, 1, 15, 16, 17, 31, 32, 33, 63, 64, 65, 100][rng.below(12)];
+	for _ in 0..1 + rng.below(3) {
+		let x = big(rng);
+		match rng.below(13) {
+			0 => o.array_begin = x,
+			1 => o.array_end = x,
+			2 => o.array_empty = x,
+			3 => o.array_before_comma = x,
+			4 => o.array_after_comma = x,
+			5 => o.object_begin = x,
+			6 => o.object_end = x,
+			7 => o.object_empty = x,
+			8 => o.object_before_comma = x,
+			9 => o.object_after_comma = x,
+			10 => o.object_before_colon = x,
+			11 => o.object_after_colon = x,
+			_ => o.indent = if rng.chance(1, 2) { Indent::Spaces(x.min(255) as u8) } else { Indent::Tabs(x.min(255) as u8) },
+		}
+	}
+	(v, o)
+}
+
+/// every container of `v`, in pre-order
+fn containers<'a>(v: &'a Value, out: &mut Vec<&'a Value>) {
+	match v {
+		Value::Array(a) => {
+			out.push(v);
+			a.iter().for_each(|x| containers(x, out));
+		}
+		Value::Object(ob) => {
+			out.push(v);
+			ob.iter().for_each(|e| containers(&e.value, out));
+		}
+		_ => (),
+	}
+}
+
+/// The value holds strings / keys from every escaping class (each control character on its own); the width limit of the
+/// kind of one of its containers is set within a few columns of that container's one-line width (measured by printing
+/// it with the same spacing and no limits - used only to aim the input, the expected text comes from the specification).
+fn boundary_case(rng: &mut Rng, g: &ValueGen) -> (Value, Options) {
+	let mut g2 = rich_gen();
+	let c = char::from_u32(rng.below(0x21) as u32).unwrap();
+	let odd = ["\u{7f}", "\u{80}", "\u{e9}", "\u{2028}", "\u{10000}", "\"", "\\", "/"][rng.below(8)];
+	g2.strings = vec![c.to_string(), format!("a{c}"), format!("{c}{c}"), odd.to_string(), "ab".into()];
+	g2.keys = vec![c.to_string(), "k".into(), odd.into(), format!("{c}x")];
+	let _ = g;
+	let d = 1 + rng.below(3);
+	let v = g2.value(rng, d);
+	let mut o = random_options(rng);
+	let mut cs = vec![];
+	containers(&v, &mut cs);
+	if !cs.is_empty() {
+		let target = cs[rng.below(cs.len())];
+		let mut free = o.clone();
+		free.array_limit = None;
+		free.object_limit = None;
+		if let Ok(line) = guarded(|| target.print_with(free).to_string()) {
+			let w = line.chars().count() as i64 + rng.range(-7, 2);
+			let w = w.max(0) as usize;
+			let lim = if rng.chance(2, 3) { Limit::Width(w) } else { Limit::ItemOrWidth(1 + rng.below(4), w) };
+			if target.is_array() {
+				o.array_limit = Some(lim);
+				if rng.chance(1, 2) {
+					o.object_limit = None;
+				}
+			} else {
+				o.object_limit = Some(lim);
+				if rng.chance(1, 2) {
+					o.array_limit = None;
+				}
+			}
+		}
+	}
+	(v, o)
+}
+
 /// impl -> spec: random values x random option records; record (v, o, text, reparse)
 pub fn record(args: &Args) {
 	let n = args.num("n", 200);
@@ -176,12 +286,23 @@ pub fn record(args: &Args) {
 	let g = rich_gen();
 	let mut lines = vec![];
 	for i in 0..n {
-		let v = g.value(&mut rng, 1 + i % 4);
-		let o = match i % 10 {
-			0 => Options::compact(),
-			1 => Options::pretty(),
-			2 => Options::inline(),
-			_ => random_options(&mut rng),
+		let (v, o) = match i % 25 {
+			// a spine nested deep enough for the indentation to pass 32 / 64 columns, every ancestor expanded
+			7 | 19 => deep_case(&mut rng, &g),
+			// spacing fields and indent units far beyond the usual 0..3 (16, 31..33, 63..65, 100)
+			11 => big_spacing_case(&mut rng, &g),
+			// a width limit placed within a few columns of the real one-line width of some container of the value
+			3 | 9 | 15 | 21 => boundary_case(&mut rng, &g),
+			_ => {
+				let v = g.value(&mut rng, 1 + i % 4);
+				let o = match i % 10 {
+					0 => Options::compact(),
+					1 => Options::pretty(),
+					2 => Options::inline(),
+					_ => random_options(&mut rng),
+				};
+				(v, o)
+			}
 		};
 		let text = guarded(|| v.print_with(o.clone()).to_string());
 		let rec = match text {
